@@ -41,6 +41,9 @@ ASSUMPTIONS = {
     "A-REFLECT": "inspect.signature(Class.__init__) reports the parameters and defaults written in the source; vars(obj) is the map of the instance fields assigned by the constructors; eval of a printed constructor call binds positional arguments in order and keywords by name; float(repr(x)) == x (CPython)",
     "A-BCAST": "NumPy broadcasting of shapes is associative, commutative and idempotent, so the shape of an aggregation fold over any number of activated terms is the broadcast of the kinds (scalar / batch) that occur - the shape cases are analysed for up to two terms",
     "A-POW": "floating-point pow(values, 1.0/n) returns the true n-th root up to a relative error of 2**-50 (IEEE pow is accurate to < 1 ulp); int() truncates, round() returns a nearest integer; decided for n = 1..4 input variables (the property's domain) and 1 <= values <= 1e9",
+    "A-POSTFIX": "the order theorem for infix_to_postfix is positional (each operator is emitted at its first closer, the queue is ordered by step then position descending); that a postfix text with this property, read by the standard stack machine (Antecedent.load / Function.parse: an operator takes the two latest trees, right = latest), is the tree of the precedence grammar is the textbook equivalence, not mechanised here; the provenance ghost (each moved string carried with the position it was read at) is a lockstep instrumentation of the executor; prefix operators, function calls and commas are outside the theorem's precondition (bounded stand-in only)",
+    "A-STR": "strings are values of an uninterpreted sort; str.split / ' '.join / find('#') / slicing / float(text) are uninterpreted functions of the text (split_fn, join_fn, ...): the obligations speak about TOKENS; ' '.join(tokens).split() == tokens for tokens without white space; character-level formatting (Function.format_infix) is outside",
+    "A-FRESH": "an object created by a constructor call is distinct from None and from every object that existed before (ghost allocation clock)",
     "A-HEAPQ": "heapq.heappush/heappop implement a min-priority queue on tuples",
     "A-PY": "attribute lookup follows the MRO read from the source; no monkey-patching/metaclasses/__getattr__ on verified classes",
     "A-MSG": "building an exception message neither raises nor has effects (message text is not evaluated)",
